@@ -55,12 +55,31 @@ def build(rng, facts, name):
     b.emit("kreweight a %s" % f2h(1.0), "ok"); b.emit("kobs a", ("same", ja))
     return b
 
+def build_sparse_fine(rng, facts, name):
+    """Hash-map stores, weights with a full mantissa (0.1, 0.3, 1/3, 2.3), every bin fed by ONE add (values a factor 4 apart), factors 2^k:
+    scaling by a power of two is exact in floats, so each bin must be bit for bit the bin of the twin fed the scaled weight (totals of a hash map
+    are order-dependent float sums and are not compared). No exact-rational model here."""
+    from .c06 import split_kobs
+    spec = rng.choice(sorted(facts)); b = Builder(name); b.no_model = True; exact = rng.random() < 0.3
+    b.knew("a", spec, "sparse", "sparse", exact); b.knew("s", spec, "sparse", "sparse", exact)
+    f = rng.choice([Fraction(1, 4), Fraction(1, 8), Fraction(4), Fraction(8), Fraction(1, 2), Fraction(1, 64)])
+    for i in rng.sample(range(-12, 13), rng.choice([2, 5, 12])):
+        v = rng.choice((1, -1)) * 4.0 ** i * 1.3; w = rng.choice([0.1, 0.3, 1.0 / 3, 2.3, 0.7, 1.1])
+        b.kadd("a", v, w); b.kadd("s", v, float(Fraction(w) * f))
+    b.kreweight("a", f)
+    ja = b.emit("kobs a")
+    def same_bins(a, env, impl):
+        ha, pa, na = split_kobs(a); h0, p0, n0 = split_kobs(impl[ja])
+        return None if (pa.split("bins=")[1], na.split("bins=")[1]) == (p0.split("bins=")[1], n0.split("bins=")[1]) else "bins after Reweight %r differ from the bins of scaled adds %r" % (impl[ja], a)
+    b.emit("kobs s", same_bins)
+    return b
+
 def run(tier, seed):
     rng = random.Random(seed)
     ok, log = core.build_vrun()
     specs = spec_list(rng, 10 if tier == "quick" else 40)
     facts = sketchcheck.learn_specs("C16", specs) if ok else {}
-    builders = [build(rng, facts, "r%d" % i) for i in range(350 if tier == "quick" else 9000)] if facts else []
+    builders = ([build(rng, facts, "r%d" % i) for i in range(350 if tier == "quick" else 9000)] + [build_sparse_fine(rng, facts, "sf%d" % i) for i in range(40 if tier == "quick" else 1000)]) if facts else []
     return sketchcheck.run_sketch_property(
         "C16", tier, seed, builders,
         "twin sketches: one receives (v, w) and is reweighted by f, the other receives (v, w*f); f in {1/2, 1/4, 3, 1, 5/4, 3/8, 2, 63/8, 1/1024}; all store kinds incl. collapsing and a paginated "
